@@ -128,6 +128,11 @@ void reb_integrator_part2(struct reb_simulation* r){
 			break;
 	}
     
+    if (r->integrator != REB_INTEGRATOR_BS && r->ri_bs.nbody_ode){
+        // The N-body ODE is an internal work array of the BS integrator. Another integrator
+        // advances the particles now; integrating it as a "user ODE" would overwrite them.
+        reb_ode_free(r->ri_bs.nbody_ode); // also removes it from r->odes and clears ri_bs.nbody_ode
+    }
     // Integrate other ODEs
     if (r->integrator != REB_INTEGRATOR_BS && r->N_odes){
         if (r->ode_warnings==0 && (!r->ri_whfast.safe_mode || !r->ri_saba.safe_mode || !r->ri_eos.safe_mode || !r->ri_mercurius.safe_mode)){
